@@ -85,10 +85,15 @@ theorem execConds_scoped : ∀ (cs : CondList) (ctx : Scope) (st : St),
       · exact Good.after e1 (walkBlockOf_good' (execBody_good g esc call hcall body) ctx st1)
       · exact Good.after e1 (execConds_scoped rest ctx st1)
 
-theorem execCases_scoped : ∀ (cs : CaseList) (sv : Value) (ctx : Scope) (st : St),
-    Good (fun _ => False) ctx st (execCases g esc call cs sv ctx st)
-  | .nil, _, ctx, st => by rw [execCases]; exact Good.leaf (by simp) (Ext.of_heap_eq rfl rfl)
-  | .cons _ values body rest, sv, ctx, st => by
+theorem execCases_scoped : ∀ (cs : CaseList) (dflt : Option Run)
+    (_ : ∀ d, dflt = some d → ∀ ctx st, Good (fun _ => False) ctx st (d ctx st)) (sv : Value) (ctx : Scope) (st : St),
+    Good (fun _ => False) ctx st (execCases g esc call cs dflt sv ctx st)
+  | .nil, dflt, hd, _, ctx, st => by
+    rw [execCases]
+    cases dflt with
+    | none => exact Good.leaf (by simp [runDefault]) (Ext.of_heap_eq rfl rfl)
+    | some d => exact hd d rfl ctx st
+  | .cons _ values body rest, dflt, hd, sv, ctx, st => by
     rw [execCases]
     split
     · exact Good.leaf (by simp) (Ext.of_heap_eq rfl rfl)
@@ -96,9 +101,9 @@ theorem execCases_scoped : ∀ (cs : CaseList) (sv : Value) (ctx : Scope) (st : 
       exact Good.after (matchCase_ext _ _ _ _ _ hm) (walkBlockOf_good' (execBody_good g esc call hcall body) ctx st1)
     · rename_i st1 hm
       have e1 := matchCase_ext (fun _ => False) _ _ _ _ hm
-      split
-      · exact Good.after e1 (walkBlockOf_good' (execBody_good g esc call hcall body) ctx st1)
-      · exact Good.after e1 (execCases_scoped rest sv ctx st1)
+      exact Good.after e1 (execCases_scoped rest _
+        (pickDefault_all (P := fun d => ∀ ctx st, Good (fun _ => False) ctx st (d ctx st))
+          (fun ctx st => walkBlockOf_good' (execBody_good g esc call hcall body) ctx st) hd) sv ctx st1)
 
 /-- only `let` binds in the current frame: every other command leaves ALL existing frames alone -/
 theorem block_cmd_scoped (c : Cmd) (hnl : ∀ p n e, c ≠ .letValue p n e) (hnc : ∀ p n b, c ≠ .letContent p n b)
@@ -173,7 +178,7 @@ theorem block_cmd_scoped (c : Cmd) (hnl : ∀ p n e, c ≠ .letValue p n e) (hnc
     split
     · exact Good.leaf (by simp) (Ext.of_heap_eq rfl rfl)
     · rename_i sv st1 he
-      exact Good.after (evalIn_ext _ he) (execCases_scoped g esc call hcall cases sv ctx st1)
+      exact Good.after (evalIn_ext _ he) (execCases_scoped g esc call hcall cases none (fun _ h => by cases h) sv ctx st1)
   | call _ name allData data params =>
     rw [execCmd]
     split
